@@ -35,7 +35,8 @@ func (c04) Info() core.Info {
 		Title: "Constant folding and expression rewriting preserve every expression's value",
 		Level: "exploration",
 		Rule: "all well-typed expressions of a typed grammar: number leaves {1,2,3,0.5,1.5,2.0,int(value),float(value),strlen('ab'),int('3'),float('1.5')} combined by + - * / to depth 2 and as 3-element chains in every association (thorough: 4-element + and * chains), text leaves {'a','b',key,value,upper('a'),lower('B'),str(3),join('-','a','b'),substr('abc',0,2)} combined by +, Boolean leaves {true,false,key='a',is_int('x'),comparisons of the number/text expressions} combined by & | and or ! to depth 3, foldable calls around constant sub-trees. " +
-			"Oracle leg 1: the expression is parsed twice; one copy is evaluated as parsed (Execute per pair and ExecuteBatch per chunk), the other after ExpressionOptimizer.Optimize(); wherever the original evaluates without error the rewritten one must give the same kind (int/float/text/bool) and value. Leg 2: the full query `select key, E where true` / `select key where E` through BuildPlan vs the reference evaluation of the un-rewritten text. Non-trivial: the optimiser changed the tree. Distinct: (expression, store).",
+			"Oracle leg 1: the expression is parsed twice; one copy is evaluated as parsed (Execute per pair and ExecuteBatch per chunk), the other after ExpressionOptimizer.Optimize(); wherever the original evaluates without error the rewritten one must give the same kind (int/float/text/bool) and value. Leg 2: the full query `select key, E where true` / `select key where E` through BuildPlan vs the reference evaluation of the un-rewritten text. Non-trivial: the optimiser changed the tree. Distinct: (expression, store)." +
+			" Family big: integer constants beyond 2^53, small factors whose product lies there, 0, +-1, 2, 3 and int(value): all pairs and 3-chains under + - * /, and as comparison / IN operands against stored integers of that size.",
 		Assumptions: []string{"floats are dyadic rationals with short fractions so that equality and re-association are exact", "integer division is judged by leg 1 only when inexact (the documentation does not define its rounding)"},
 	}
 }
